@@ -191,7 +191,15 @@ namespace jsoncons {
 
         ~ordered_json_object() noexcept
         {
-            flatten_and_destroy();
+            // Flattening allocates a work list. If that fails, fall back to
+            // ordinary recursive destruction of whatever was not yet moved out.
+            JSONCONS_TRY
+            {
+                flatten_and_destroy();
+            }
+            JSONCONS_CATCH(...)
+            {
+            }
         }
 
         ordered_json_object& operator=(ordered_json_object&& val)
@@ -792,7 +800,7 @@ namespace jsoncons {
             return found ? it : find(name);
         }
 
-        void flatten_and_destroy() noexcept
+        void flatten_and_destroy()
         {
             if (!data_.empty())
             {
